@@ -322,6 +322,9 @@ def cmd_check(check, tier, args):
         agg["n"], agg["distinct_nontrivial"], agg["states"], agg["n_ops"], wall_total, agg["n"] / max(wall_total, 1e-9) * 3600,
         len(agg["violations"]) + agg["violations_dropped"], len(new_viol), dict(known_hits), agg["truncated"]))
     for k, v in sorted(agg["probes"].items()):
+        if k.startswith("FAULT-PROBE"):
+            print("FAULT-PROBE %s count=%d (report-only: outside every property's quantifier)" % (k[len("FAULT-PROBE_"):], v))
+    for k, v in sorted(agg["probes"].items()):
         if v == 0 and tier == "thorough":
             print("WARNING reach probe %s stuck at zero" % k)
     if agg["n"] == 0:
